@@ -102,17 +102,52 @@ _LAST_RUN = [0.0]
 _WPROG = [None]
 
 
+# time budget of the thorough tier: a check explores its planned case families in a seeded random order until the budget of
+# the check is used up; what was not run is reported as such (evidence: planned vs. run) and nothing is claimed about it
+_BUDGET = {'deadline': None, 'seed': 0}
+_LAST_PLAN = [0, 0]          # planned, run
+
+
 def run_cases(prog, fn, cases, nproc=None):
     """run fn(prog, params) for every case on a fork pool; returns list of CaseResult"""
     nproc = nproc or NPROC
     _WPROG[0] = prog
     t0 = time.time()
+    _LAST_PLAN[0] = _LAST_PLAN[1] = len(cases)
     try:
-        if nproc <= 1 or len(cases) <= 1:
-            return [_worker((fn, c)) for c in cases]
+        deadline = _BUDGET['deadline']
+        if deadline is None:
+            if nproc <= 1 or len(cases) <= 1:
+                return [_worker((fn, c)) for c in cases]
+            ctx = mp.get_context('fork')
+            with ctx.Pool(min(nproc, len(cases))) as pool:
+                return pool.map(_worker, [(fn, c) for c in cases], chunksize=1)
+        # budgeted: this family may use at most 45 % of what is left (and at least 30 s), so that later families run too
+        import random as _random
+        remaining = deadline - t0
+        allot = max(30.0, remaining * 0.45)
+        order = list(cases)
+        _random.Random(_BUDGET['seed']).shuffle(order)
+        out = []
+        if not order:
+            return out
         ctx = mp.get_context('fork')
-        with ctx.Pool(min(nproc, len(cases))) as pool:
-            return pool.map(_worker, [(fn, c) for c in cases], chunksize=1)
+        pool = ctx.Pool(min(nproc, len(order)))
+        try:
+            it = pool.imap_unordered(_worker, [(fn, c) for c in order], chunksize=1)
+            while len(out) < len(order):
+                left = t0 + allot - time.time()
+                if left <= 0:
+                    break
+                try:
+                    out.append(it.next(timeout=min(left, 5.0)))
+                except mp.TimeoutError:
+                    continue
+        finally:
+            pool.terminate()
+            pool.join()
+        _LAST_PLAN[1] = len(out)
+        return out
     finally:
         _LAST_RUN[0] = time.time() - t0
 
@@ -216,11 +251,20 @@ class Check:
         self.extra = {}
         self.level = 'model_checking'
         self.rule = ''
+        if tier != 'quick':
+            _BUDGET['deadline'] = self.t0 + float(os.environ.get('VERIF_THOROUGH_BUDGET_S', '420'))
+            _BUDGET['seed'] = seed
+        else:
+            _BUDGET['deadline'] = None
 
     def add(self, results, family):
         self.results += results
-        self.families.append({'family': family, 'cases': len(results), 'wall_s': round(_LAST_RUN[0], 1),
-                              'slowest_case_s': round(max([r.extra.get('wall_s', 0) for r in results] or [0]), 1)})
+        ent = {'family': family, 'cases': len(results), 'wall_s': round(_LAST_RUN[0], 1),
+               'slowest_case_s': round(max([r.extra.get('wall_s', 0) for r in results] or [0]), 1)}
+        if _LAST_PLAN[0] != _LAST_PLAN[1]:
+            ent['cases_planned'] = _LAST_PLAN[0]
+            ent['note'] = 'time budget of the tier reached: %d of %d planned cases run (seeded random order); nothing is claimed about the rest' % (_LAST_PLAN[1], _LAST_PLAN[0])
+        self.families.append(ent)
 
     def finish(self, prog):
         """-> exit code; prints VIOLATION / KNOWN-FINDING lines; writes evidence"""
@@ -295,9 +339,9 @@ class Check:
                 'evaluations': max(evals, stats.paths),
                 'distinct_nontrivial': states,
                 'rule': self.rule,
-                'exhaustive': not incon,
+                'exhaustive': not incon and not any('cases_planned' in f_ for f_ in self.families),
                 'case_families': self.families,
-                'bounds': self.bounds,
+                'bounds': dict(self.bounds, **({'time_budget': 'the thorough tier explores its planned families in seeded random order within %s s per check (VERIF_THOROUGH_BUDGET_S); families that were cut short say so (cases vs cases_planned)' % os.environ.get('VERIF_THOROUGH_BUDGET_S', '420')} if self.tier != 'quick' else {})),
                 'engine': {
                     'mir_dump_lines': getattr(prog, 'dump_lines', None) if prog else None,
                     'mir_dump_sha256_16': getattr(prog, 'dump_sha', None) if prog else None,
